@@ -540,6 +540,39 @@ func (r *pRun) crash() error {
 	return nil
 }
 
+// staleTempProbe runs one fixed scenario next to the property (reported, not
+// judged, unless strictDir): the temp file of an interrupted persist survives
+// the restart; a later Remove completes and persists; the next restart loads
+// the stale temp file again and the removed entry is back.
+func (r *pRun) staleTempProbe() {
+	dir := filepath.Join(vh.Scratch(r.t), "c18-persist", fmt.Sprintf("%d-staletmp", os.Getpid()))
+	if err := os.MkdirAll(dir, 0o750); err != nil {
+		return
+	}
+	e1, e4 := r.strOf["E1"], r.strOf["E4"]
+	if e1 == "" || e4 == "" {
+		return
+	}
+	hdr := "# The file generated by auto. DO NOT EDIT\n"
+	_ = os.WriteFile(filepath.Join(dir, "local"), []byte(hdr+e1+"\n"), 0o640)
+	// Set(E4) was interrupted between Close and Rename
+	_ = os.WriteFile(filepath.Join(dir, "local.tmp.1234567"), []byte(hdr+e1+"\n"+e4+"\n"), 0o600)
+	b2 := newBlockList(dir, r.wl) // restart
+	removed := b2.Remove(e4)      // completes, persists
+	local, _ := readListFile(filepath.Join(dir, "local"))
+	b3 := newBlockList(dir, r.wl) // restart again
+	if b3.Exists(e4) && !b2.Exists(e4) {
+		r.res.Count("stale_temp_resurrects_removed_entry", 1)
+		what := fmt.Sprintf("leftover temp file of an interrupted persist: after restart, Remove(%q) = %v completed and `local` lists %v, "+
+			"yet the next restart blocks %q again (local.tmp.* is loaded by readBlocklists and never deleted)", e4, removed, local.raw, e4)
+		if r.in.StrictDir {
+			r.res.Violate("persist/StaleTemp", what, map[string]any{"driver": "persist", "scenario": "stale-temp"})
+		} else {
+			r.res.Sample(map[string]any{"adjacent_finding": what})
+		}
+	}
+}
+
 func contains(ss []string, s string) bool {
 	for _, x := range ss {
 		if x == s {
@@ -736,6 +769,8 @@ func TestPersistSchedules(t *testing.T) {
 	}
 	blocklist.SetVerifGate(r.gate)
 	defer blocklist.SetVerifGate(nil)
+
+	r.staleTempProbe()
 
 	var out *os.File
 	if in.TraceOut != "" {
